@@ -364,6 +364,95 @@ def run(P, rep, tier):
                        if not problems else '; '.join(problems))
     rep.floor('C09.PROGRESS', 5)
 
+    # ---------------- RESET: a row-progress cell is either a *count* (published value = column index + 1, reset to 0) or an *index*
+    # (published value = column index, reset to -1).  An index reset to 0 cannot tell "nothing done" from "column 0 done": the waiter of
+    # the next row passes its first test before the row above has produced anything (it matters when the waited bound can be 0, i.e.
+    # for pictures one superblock wide).  Decided for every progress array: publisher expression against the reset value.
+    def _member_of(g, x, depth=0):
+        x = strip(x)
+        while x is not None and x[0] == 'k':
+            x = strip(x[-1])
+        if x is None or depth > 3:
+            return None
+        if x[0] == 'u' and x[1] in ('&', '*'):
+            return _member_of(g, x[2], depth)
+        if x[0] == 'i':
+            return _member_of(g, x[1], depth)
+        if x[0] == 'm':
+            return x[1]
+        if x[0] == 'v' and x[2] == 'l':
+            ds = []
+            for d in g.events(('decl', 'st')):
+                e = d.get('e')
+                if e is None:
+                    continue
+                if d['k'] == 'decl' and d['n'] == x[1]:
+                    ds.append(e)
+                elif d['k'] == 'st' and e[0] == 'a' and e[1] == '=' and strip(e[2]) is not None and strip(e[2])[0] == 'v' and strip(e[2])[1] == x[1]:
+                    ds.append(e[3])
+            ms = {_member_of(g, d, depth + 1) for d in ds}
+            ms.discard(None)
+            return ms.pop() if len(ms) == 1 else None
+        return None
+    pubs, resets = {}, {}
+    for g in P.fns:
+        if g.lib != 'Decoder' or g.nocfg:
+            continue
+        for ev in g.events(('st',)):
+            e = ev['e']
+            if e[0] != 'a' or e[1] != '=':
+                continue
+            t = strip(e[2])
+            if t is None or t[0] != 'u' or t[1] != '*':
+                continue
+            m = _member_of(g, t[2])
+            if not m or 'completed_in_row' not in m:
+                continue
+            r = strip(e[3])
+            while r is not None and r[0] == 'k':
+                r = strip(r[-1])
+            kind = None
+            if r is not None and r[0] == 'v':
+                kind = 'index'
+            elif r is not None and r[0] == 'b' and r[1] == '+' and pstr(strip(r[3])) == '1' and strip(r[2]) is not None and strip(strip(r[2]))[0] in ('v', 'k'):
+                kind = 'count'
+            if kind:
+                pubs.setdefault(m, []).append((g, ev, kind, pstr(r)))
+        for ev, n in g.calls('memset'):
+            a = ev['e'][2]
+            if len(a) < 2:
+                continue
+            m = _member_of(g, a[0])
+            if not m or 'completed_in_row' not in m:
+                continue
+            v = strip(a[1])
+            while v is not None and v[0] == 'k':
+                v = strip(v[-1])
+            val = None
+            if v is not None and v[0] == 'l':
+                val = v[1]
+            elif v is not None and v[0] == 'u' and v[1] == '-' and strip(v[2]) is not None and strip(v[2])[0] == 'l':
+                val = -strip(v[2])[1]
+            if val is not None:
+                resets.setdefault(m, []).append((g, ev, val))
+    nres = 0
+    for m, pl in sorted(pubs.items()):
+        rl = [x for x in resets.get(m, []) if x[0] in C.runtime or True]
+        if not rl:
+            continue
+        for g, ev, kind, txt in pl:
+            nres += 1
+            want = 0 if kind == 'count' else -1
+            badr = [x for x in rl if x[2] != want and not (kind == 'count' and x[2] == 0)]
+            # the allocation-time memset may use either value; the per-frame reset decides: every reset must be the wanted value
+            ok = all(x[2] == want for x in rl)
+            rep.ob('C09.RESET', '%s/%s' % (g.name, m), ok, g.loc(ev),
+                   ('%s publishes %s (a column %s) and is reset to %d' % (m.split('.')[1], txt, kind, want)) if ok else
+                   ('%s publishes the bare column index %s but is reset to %s (%s): after the reset the cell already reads as "column 0 done", so a waiter whose bound is 0 (a picture one superblock wide) starts before the row above has produced anything' %
+                    (m.split('.')[1], txt, sorted({x[2] for x in rl}), ', '.join(sorted({x[0].name for x in rl if x[2] != want})))) if kind == 'index' else
+                   ('%s publishes a count (%s) but is reset to %s' % (m.split('.')[1], txt, sorted({x[2] for x in rl}))))
+    rep.floor('C09.RESET', 4)
+
     # ---------------- SEM
     waits, posts = {}, {}
     for f in dec:
